@@ -413,6 +413,21 @@ func init() {
 			c.YScript = genScript(rng, 5, &ov)
 			cases = append(cases, c)
 		}
+		// stored cases that run first: a call that overruns its timeout and returns late, followed by another attempt of the
+		// same action or by the next action. Whatever the late call delivers belongs to the abandoned attempt and must
+		// not show up in a later one (each shape three times: where a late result lands depends on the scheduler).
+		ovr := Outcome{Resp: "good", Err: "none", Overrun: true}
+		var stored []*c05Case
+		for rep := 0; rep < 3; rep++ {
+			for ret := 1; ret <= 2; ret++ {
+				stored = append(stored,
+					&c05Case{XRetries: 0, XScript: []Outcome{okOutcome}, YRetries: ret, YScript: []Outcome{ovr, okOutcome}},
+					&c05Case{XRetries: ret, XScript: []Outcome{ovr, okOutcome}, YRetries: 0, YScript: []Outcome{okOutcome}},
+					&c05Case{XRetries: 0, XScript: []Outcome{okOutcome}, YRetries: ret + 1, YScript: []Outcome{ovr, {Resp: "nil", Err: "transient"}, okOutcome}})
+			}
+			stored = append(stored, &c05Case{XRetries: 1, XScript: []Outcome{ovr, okOutcome}, YRetries: 1, YScript: []Outcome{ovr, okOutcome}})
+		}
+		cases = append(stored, cases...)
 		if cfg.Tier == "thorough" {
 			// exhaustive: all scripts of length <= 3 over 6 classes, budgets 0..2, as Y (X trivial) and as X (Y trivial)
 			classes := []Outcome{{Resp: "good", Err: "none"}, {Resp: "nil", Err: "transient"}, {Resp: "nil", Err: "permanent"}, {Resp: "bad", Err: "transient"}, {Resp: "good", Err: "transient"}, {Resp: "nil", Err: "none"}}
